@@ -136,6 +136,7 @@ class SSHChannel(Generic[AnyStr], SSHPacketHandler):
         self._recv_window = window
         self._recv_pktsize = max_pktsize
         self._recv_paused: Union[bool, str] = 'starting'
+        self._recv_eof_pending = False
         self._recv_buf: List[Tuple[bytes, DataType]] = []
 
         self._request_queue: List[Tuple[str, SSHPacket, bool]] = []
@@ -354,8 +355,11 @@ class SSHChannel(Generic[AnyStr], SSHPacketHandler):
                 except UnicodeDecodeError as unicode_exc:
                     raise ProtocolError(str(unicode_exc)) from None
 
-            if self._recv_state == 'eof_pending':
-                self._recv_state = 'eof'
+            if self._recv_state == 'eof_pending' or self._recv_eof_pending:
+                if self._recv_state == 'eof_pending':
+                    self._recv_state = 'eof'
+
+                self._recv_eof_pending = False
 
                 assert self._session is not None
 
@@ -645,6 +649,7 @@ class SSHChannel(Generic[AnyStr], SSHPacketHandler):
 
         self._close_send()
 
+        self._recv_eof_pending = self._recv_state == 'eof_pending'
         self._recv_state = 'close_pending'
         self._flush_recv_buf()
 
